@@ -364,6 +364,10 @@ class Fn:
             self._cache['loops'] = dict(loops)
         return self._cache['loops']
 
+    def postdominates_entry(self, b):
+        """b executes on every returning path of the function"""
+        return b in self.postdominators().get(0, set())
+
     def loops_containing(self, b):
         return [h for h, body in self.loops().items() if b in body]
 
@@ -502,7 +506,17 @@ class Fn:
         if 'int' in op:
             return ('int', op['int'])
         if 'cdef' in op:
-            return ('constdef', strip_generics(op['cdef']))
+            key = strip_generics(op['cdef'])
+            prog = getattr(self, 'program', None)
+            cf = prog.fns.get(key) if prog is not None else None
+            if cf is not None and cf.kind == 'const' and cf is not self:
+                # a named constant of the workspace: use its (closed) value
+                rb = cf.return_blocks()
+                if len(rb) == 1:
+                    t = cf.expr_local(0, rb[0], 'T')
+                    if not any(x[0] in ('local', 'arg', 'phi', 'var', 'constdef') for x in walk(t)):
+                        return t
+            return ('constdef', key)
         return ('const', op.get('v', ''), op.get('ty', ''))
 
     def expr_place(self, place, b, i, depth=80):
@@ -579,6 +593,44 @@ class Fn:
                 res = trees[0] if len(trees) == 1 else ('phi', tuple(trees), self.local_name(l))
         self._cache[key] = res
         return res
+
+    def expr_operand_on_path(self, op, path, idx, i='T'):
+        """like expr_operand at block path[idx], but a plain local merged from several definitions (phi) is resolved to the
+        definition that is the last one executed on `path` (copy chains are followed along the path)"""
+        for _ in range(12):
+            if not (op['k'] in ('copy', 'move') and not op['p']['pr']):
+                break
+            l = op['p']['l']
+            found = None
+            j = idx
+            lim = i
+            while j >= 0 and found is None:
+                b = path[j]
+                stmts = self.stmts(b)
+                hi = len(stmts) if lim == 'T' else lim
+                if lim == 'T' and j != idx:
+                    t = self.term(b)
+                    if t['k'] == 'call' and t['dest']['l'] == l:
+                        found = (j, 'T', None if t['dest']['pr'] else t)
+                        break
+                for k in range(hi - 1, -1, -1):
+                    st = stmts[k]
+                    if st['k'] in ('assign', 'setdiscr') and st['p']['l'] == l:
+                        found = (j, k, st if (st['k'] == 'assign' and not st['p']['pr']) else None)
+                        break
+                j -= 1
+                lim = 'T'
+            if found is None or found[2] is None:
+                break
+            j, k, st = found
+            if k == 'T':
+                return self._def_tree(next(di for di, d in enumerate(self._defs()) if d[1] == path[j] and d[2] == 'T'), 80)
+            r = st['r']
+            if r['k'] == 'use' and r['o']['k'] in ('copy', 'move') and not r['o']['p']['pr']:
+                op, idx, i = r['o'], j, k
+                continue
+            return self.expr_rvalue(r, path[j], k)
+        return self.expr_operand(op, path[idx], i)
 
     def _def_tree(self, di, depth):
         l, b, i, partial = self._defs()[di]
@@ -667,13 +719,23 @@ class Fn:
         self._cache[key] = out
         return out
 
+    def switch_ty(self, b):
+        """type of the value a switch block branches on (plain locals only)"""
+        t = self.term(b)
+        d = t.get('d') if t['k'] == 'switch' else None
+        if d and d['k'] in ('copy', 'move') and not d['p']['pr']:
+            return self.local_ty(d['p']['l'])
+        if d and d['k'] in ('copy', 'move') and d['p']['pr'][-1]['k'] == 'field':
+            return d['p']['pr'][-1].get('ty')
+        return None
+
     def guard_atoms(self, b):
         """guards(b) normalised to atoms (see atom_of)"""
         out = []
         for (s, cond, val) in self.guards(b):
             if self.term(s)['k'] == 'assert':
                 continue  # compiler-inserted overflow / bounds / division checks carry no program logic
-            a = atom_of(cond, val)
+            a = atom_of(cond, val, self.switch_ty(s))
             if a is not None:
                 out.append((s, a))
         return out
@@ -959,7 +1021,10 @@ def canon(t):
     return t
 
 
-def atom_of(cond, val):
+INT_TYS = {'u8', 'u16', 'u32', 'u64', 'u128', 'usize', 'i8', 'i16', 'i32', 'i64', 'i128', 'isize', 'char'}
+
+
+def atom_of(cond, val, ty=None):
     """Normalise a branch fact (cond tree, ('eq',v)|('ne',(vs))) to an atom:
        ('cmp', op, lhs, rhs)  – op in lt le gt ge eq ne, operands stripped of refs
        ('is', tree, variant)/('isnot', tree, variants) for enum discriminants
@@ -989,6 +1054,13 @@ def atom_of(cond, val):
         if len(rest) == 1:
             return ('is', canon(c[1]), rest[0])
         return ('isnot', canon(c[1]), tuple(names.get(x, str(x)) for x in val[1]))
+    if ty in INT_TYS and c is cond:
+        # `match n { 0 => .., k => .. }` on an integer: an equality test against the listed value
+        if val[0] == 'eq':
+            return ('cmp', 'eq', canon(strip_refs(c)), ('int', val[1]))
+        if len(val[1]) == 1:
+            return ('cmp', 'ne', canon(strip_refs(c)), ('int', val[1][0]))
+        return ('switch', canon(c), val)
     if truth is None:
         return ('switch', canon(c), val)
     if c[0] == 'call' and c[1] in CMP_METHODS and len(c[2]) == 2:
@@ -1043,6 +1115,12 @@ class Program:
                 im = dict(im); im['crate'] = d['crate']
                 self.impls.append(im)
         self._callers = None
+        for f in self.fn_list:
+            f.program = self
+        self.inlined = []
+        bp = os.path.join(os.path.dirname(os.path.dirname(os.path.abspath(__file__))), 'baseline_fns.json')
+        if os.path.exists(bp):
+            self.inlined = inline_new_helpers(self, set(json.load(open(bp))))
 
     def fn(self, key):
         f = self.fns.get(key)
@@ -1292,3 +1370,131 @@ def sccs(graph):
         if v not in index:
             strong(v)
     return out
+
+
+# --------------------------------------------------------------------------- inlining of new private helpers
+#
+# Rules anchor on the functions that exist on the pinned tree (rules/baseline_fns.json).  A behaviour-preserving
+# "extract method" refactoring moves part of an anchored function into a NEW private helper; to keep path, dominance
+# and provenance rules meaningful, every call to a local function that is not in the baseline is inlined into its
+# caller (MIR splice: renamed locals/blocks, arguments become assignments, returns become an assignment + goto).
+
+import copy
+
+
+def _rename(x, loff, boff, poff):
+    """deep-copy a facts JSON fragment of the callee with locals, block targets and promoted indices shifted"""
+    if isinstance(x, list):
+        return [_rename(y, loff, boff, poff) for y in x]
+    if not isinstance(x, dict):
+        return x
+    out = {}
+    for k, v in x.items():
+        if k == 'l' and isinstance(v, int):
+            out[k] = v + loff
+        elif k == 'promoted' and isinstance(v, int):
+            out[k] = v + poff
+        else:
+            out[k] = _rename(v, loff, boff, poff)
+    return out
+
+
+def _retarget_term(t, boff):
+    t = dict(t)
+    k = t['k']
+    if k in ('goto', 'drop', 'assert', 'yield') and t.get('t') is not None:
+        t['t'] = t['t'] + boff
+    if k == 'call' and t.get('t') is not None:
+        t['t'] = t['t'] + boff
+    if k == 'switch':
+        t['vals'] = [[v, tg + boff] for v, tg in t['vals']]
+        t['otherwise'] = t['otherwise'] + boff
+    if t.get('u') is not None:
+        t['u'] = t['u'] + boff
+    if k == 'yield' and t.get('drop') is not None:
+        t['drop'] = t['drop'] + boff
+    return t
+
+
+def inline_new_helpers(P, baseline, max_depth=3, max_blocks=120):
+    """inline calls to local non-closure functions that are not in `baseline` (set of fn keys); returns list of (caller, callee)"""
+    done = []
+    for f in list(P.fn_list):
+        if f.kind == 'promoted':
+            continue
+        for _ in range(max_depth):
+            sites = []
+            for b in range(len(f.blocks)):
+                t = f.blocks[b]['t']
+                if t['k'] != 'call':
+                    continue
+                k = strip_generics(t['res']) if t.get('res') else (strip_generics(t['callee']) if t.get('callee') else None)
+                g = P.fns.get(k) if k else None
+                if g is None or g is f or g.kind in ('closure', 'promoted') or k in baseline:
+                    continue
+                if len(g.blocks) > max_blocks or f.key in _reach_keys(P, g, 4):
+                    continue
+                sites.append((b, g))
+            if not sites:
+                break
+            for b, g in sites:
+                _inline_site(f, b, g)
+                done.append((f.key, g.key))
+            f._cache = {}
+            f._names = {}
+            for d in f.dbg:
+                if not d['p']['pr']:
+                    f._names.setdefault(d['p']['l'], d['n'])
+    P._cg = None
+    P._callers = None
+    return done
+
+
+def _reach_keys(P, g, depth):
+    seen = set()
+    st = [(g.key, 0)]
+    while st:
+        k, d = st.pop()
+        if k in seen or d > depth or k not in P.fns:
+            continue
+        seen.add(k)
+        for t in P.fns[k].blocks:
+            tt = t['t']
+            if tt['k'] == 'call':
+                c = strip_generics(tt['res']) if tt.get('res') else (strip_generics(tt['callee']) if tt.get('callee') else None)
+                if c:
+                    st.append((c, d + 1))
+    seen.discard(g.key)
+    return seen | ({g.key} if any((strip_generics(b['t'].get('res') or b['t'].get('callee') or '') == g.key) for b in g.blocks if b['t']['k'] == 'call') else set())
+
+
+def _inline_site(f, b, g):
+    call = f.blocks[b]['t']
+    loff = len(f.locals)
+    boff = len(f.blocks)
+    poff = len(f.promoted)
+    f.locals.extend(copy.deepcopy(g.locals))
+    for pf in g.promoted:
+        f.promoted.append(pf)
+    ln = call.get('ln')
+    # callee blocks
+    for gb in g.blocks:
+        nb = {'s': _rename(gb['s'], loff, boff, poff), 'cleanup': gb['cleanup']}
+        t = _rename(gb['t'], loff, boff, poff)
+        t = _retarget_term(t, boff)
+        if t['k'] == 'return':
+            nb['s'] = nb['s'] + [{'k': 'assign', 'p': copy.deepcopy(call['dest']),
+                                  'r': {'k': 'use', 'o': {'k': 'move', 'p': {'l': loff, 'pr': []}}}, 'ln': ln, 'exp': 'inlined-return'}]
+            if call.get('t') is not None:
+                t = {'k': 'goto', 't': call['t'], 'ln': ln}
+            else:
+                t = {'k': 'unreachable', 'ln': ln}
+        nb['t'] = t
+        f.blocks.append(nb)
+    # argument passing, then jump into the callee
+    stm = list(f.blocks[b]['s'])
+    for i, a in enumerate(call['args']):
+        stm.append({'k': 'assign', 'p': {'l': loff + 1 + i, 'pr': []}, 'r': {'k': 'use', 'o': copy.deepcopy(a)}, 'ln': ln, 'exp': 'inlined-arg'})
+    f.blocks[b] = {'s': stm, 't': {'k': 'goto', 't': boff, 'ln': ln, 'inlined': g.key}, 'cleanup': f.blocks[b]['cleanup']}
+    for d in g.dbg:
+        f.dbg.append(_rename(d, loff, boff, poff))
